@@ -17,6 +17,7 @@ import Pdpy11.Driver.Defs
 import Pdpy11.Driver.Layout
 import Pdpy11.Driver.Shunt
 import Pdpy11.Driver.Poly
+import Pdpy11.Driver.Thunk
 namespace Pdpy11.Driver
 
 def handle (line : String) : String :=
@@ -52,6 +53,7 @@ def handle (line : String) : String :=
     | "layout" => handleLayout args
     | "shunt" => handleShunt args
     | "poly" => handlePoly args
+    | "thunk" => handleThunk args
     | "ping" => "pong"
     | _ => "bad-op"
 
